@@ -203,6 +203,13 @@ class Ctx:
         if os.path.isdir(self.wd):
             shutil.rmtree(self.wd, ignore_errors=True)
         os.makedirs(self.wd, exist_ok=True)
+        # private copies of the executables: the shared build cache may be pruned by a concurrent build of another tree
+        bindir = os.path.join(self.wd, "bin")
+        os.makedirs(bindir, exist_ok=True)
+        for attr, nm in (("drv", "surrdrv"), ("drv_asan", "surrdrv-asan"), ("shim", "killshim.so")):
+            dst = os.path.join(bindir, nm)
+            shutil.copy2(getattr(self, attr), dst)
+            setattr(self, attr, dst)
         self.nchild = 0
 
 
